@@ -56,6 +56,7 @@ type psSessPlan struct {
 	maxRecv        int // -1 unlimited; manual >= 0; iterator >= 1
 	trigger        bool
 	leaveByPanic   bool // iterator with maxRecv > 0: leave the loop by a panic out of the body instead of break
+	peek           bool // manual: the subscriber looks at the subscriber count (Add(0)) between Wait and its next receive
 	nilYield       bool // never-run / cancelled-first: the iterator is called with a nil yield func (documented to panic, after making sure the subscription is withdrawn exactly once)
 	preCancel      int  // iterator-cancelled-first: 0 cancel after SubscribeContext returned, 1 before the call, 2 racing the call
 	trigSend       int  // canceller waits for this (global) Send index to be invoked ...
@@ -208,6 +209,9 @@ func drawPSSession(prof psProfile, totalSends int) psSessPlan {
 	if simrt.Chance(1, 5) {
 		s.stallAfterWait = simrt.DrawRange(1, 20)
 	}
+	if s.kind == psManual && simrt.Chance(1, 4) {
+		s.peek = true
+	}
 	if s.kind != psManual && simrt.Chance(1, 3) {
 		s.startStall = simrt.DrawRange(1, 15)
 	}
@@ -289,6 +293,15 @@ loop:
 			if sp.stallAfterWait > 0 {
 				s.state = "stalled after Wait"
 				simrt.Stall(sp.stallAfterWait)
+			}
+			if sp.peek {
+				// an accessor, not a blocking operation: fine between Wait and the next receive
+				s.state = "inspecting the subscriber count (Add(0))"
+				simrt.Probe("add0_by_a_subscriber_between_messages")
+				if c := r.x.Add(0); c < 1 {
+					simrt.Failf(r.prof.prop+".count", "subscription %d: Add(0) returned %d while this subscription is standing", s.id, c)
+					return
+				}
 			}
 		case <-s.quit:
 			break loop
